@@ -54,7 +54,14 @@ type UF struct {
 	Ret  Sort
 }
 
+type constKey struct {
+	k Kind
+	w int
+	v int64
+}
+
 type Ctx struct {
+	consts map[constKey]*Term // fast path for small constants (avoids building the intern key string)
 	tab   map[string]*Term
 	small map[[2]uint64]*Term // (width, value) -> bit-vector constant, fast path in front of intern
 	bools [2]*Term
@@ -139,6 +146,19 @@ func (c *Ctx) Bool(b bool) *Term {
 func (c *Ctx) True() *Term  { return c.Bool(true) }
 func (c *Ctx) False() *Term { return c.Bool(false) }
 
+func (c *Ctx) smallConst(s Sort, v *big.Int) *Term {
+	k := constKey{s.K, s.W, v.Int64()}
+	if t, ok := c.consts[k]; ok {
+		return t
+	}
+	if c.consts == nil {
+		c.consts = map[constKey]*Term{}
+	}
+	t := c.intern(&Term{Op: "const", S: s, V: new(big.Int).Set(v)})
+	c.consts[k] = t
+	return t
+}
+
 func (c *Ctx) BV(v *big.Int, w int) *Term {
 	if w <= 64 && v.Sign() >= 0 && v.BitLen() <= w {
 		k := [2]uint64{uint64(w), v.Uint64()}
@@ -157,6 +177,9 @@ func (c *Ctx) BV(v *big.Int, w int) *Term {
 func (c *Ctx) BVu(v uint64, w int) *Term { return c.BV(new(big.Int).SetUint64(v), w) }
 func (c *Ctx) BVi(v int64, w int) *Term  { return c.BV(big.NewInt(v), w) }
 func (c *Ctx) Int(v *big.Int) *Term {
+	if v.IsInt64() {
+		return c.smallConst(IntSort, v)
+	}
 	return c.intern(&Term{Op: "const", S: IntSort, V: new(big.Int).Set(v)})
 }
 func (c *Ctx) Inti(v int64) *Term { return c.Int(big.NewInt(v)) }
